@@ -553,6 +553,26 @@ def history(t):
                             problems.append((k, "raytrace differs"))
                         if not _same(np.array(a[0]._gradient), np.array(b[0]._gradient)):
                             problems.append((k, "raytrace/gradient access modified the gradient"))
+                        # the grids handed out by `.gradient` are the caller's: editing them must not change what the
+                        # traveltime object returns afterwards (no sharing, no memoised hand-outs)
+                        gl = a[0].gradient
+                        e1 = [_call(lambda g=g: g(pts_c.copy())) for g in gl]
+                        _call(lambda: gl[0].smooth(1.5))
+                        _call(lambda: gl[-1].resample(tuple(int(n) + 1 for n in gl[-1].shape)))
+                        e2 = [_call(lambda g=g: g(pts_c.copy())) for g in a[0].gradient]
+                        e3 = [_call(lambda g=g: g(pts_c.copy())) for g in b[0].gradient]
+                        for x, y, z in zip(e1, e2, e3):
+                            if x[0] != z[0] or y[0] != z[0] or (z[0] == "ok" and not (_same(x[1], z[1]) and _same(y[1], z[1]))):
+                                problems.append((k, "gradient evaluation depends on earlier accesses / edits of handed-out grids"))
+                                break
+                        q3 = _call(lambda: a[0].raytrace(pts_c.copy(), **rk))
+                        same3 = q3[0] == q2[0] and (q3[0] != "ok" or (
+                            all(_same(x, y) for x, y in zip(q3[1], q2[1])) if isinstance(q3[1], list) else _same(q3[1], q2[1])))
+                        if not same3:
+                            problems.append((k, "raytrace after editing the handed-out gradient grids differs"))
+                        extra_tt = set(vars(a[0])) - set(vars(b[0]))
+                        if extra_tt:
+                            problems.append((k, f"queries left extra attributes on the traveltime object: {sorted(extra_tt)}"))
         elif kind == "call":
             pts_c = np.asarray(op_["points"], dtype=np.float64)
             parg = _variant(pts_c, op_.get("repr", "copy"))
@@ -657,6 +677,11 @@ def resample_smooth(t):
             before = {"shape": tuple(e.shape), "gridsize": tuple(e.gridsize), "origin": np.array(e.origin),
                       "min": float(e.grid.min()), "max": float(e.grid.max()), "grid": np.array(e.grid)}
             seen.clear()
+            if t.get("warm", True):
+                # a query before every edit: a solve after the edit must not reuse anything derived from the old model
+                wsrc = [float(e.origin[a]) + 0.37 * float(e.gridsize[a]) * int(e.shape[a]) for a in range(nd)]
+                _call(lambda: e.solve(wsrc, nsweep=1))
+                _call(lambda: e(np.array(wsrc)))
             if op_["kind"] == "resample":
                 e.resample(tuple(op_["shape"]), op_.get("method", "linear"))
             else:
